@@ -295,6 +295,58 @@ pub fn check(args: &Args) -> i32 {
         new_violations += 1;
         exit = 1;
     }
+    // the systematic part: every nesting of two operators, both groupings
+    let grid_n = crate::c14grid::count();
+    let gouts = parallel_map(grid_n, args.workers, move |i| run_explicit(&crate::c14grid::world(seed, i), false));
+    let mut grid_reported: Vec<String> = vec![];
+    let mut grid_violating = 0u64;
+    let mut grid_executed = 0u64;
+    for (i, g) in gouts.iter().enumerate() {
+        stats.merge(&g.stats);
+        stats.add("grid.worlds", 1);
+        if g.executable {
+            grid_executed += 1;
+        }
+        if let Outcome::Violated(v) = &g.outcome {
+            grid_violating += 1;
+            let mut rv = crate::c14grid::world(seed, i as u64);
+            let src = rv["sources"][0][1].as_str().unwrap_or("").to_string();
+            if let Some(k) = known.iter().find(|k| {
+                k.kind == "finding" && k.property == "C14" && !k.source_regex.is_empty() && (k.classes.is_empty() || k.classes.iter().any(|c| c == &v.class)) && regex::Regex::new(&k.source_regex).map(|re| re.is_match(&src)).unwrap_or(false)
+            }) {
+                if known_seen.insert(k.id.clone()) {
+                    println!("KNOWN-FINDING: property=C14 {}", k.what);
+                    known_reported.push(json!({"id": k.id, "what": k.what, "first_run": format!("grid-{}", i)}));
+                }
+                continue;
+            }
+            let sig = format!("{}|{}", v.class, rv["grid"]["expression"]);
+            if grid_reported.len() as u64 >= max_report || grid_reported.contains(&sig) {
+                continue;
+            }
+            grid_reported.push(sig);
+            rv["property"] = json!("C14");
+            rv["verif_seed"] = json!(seed.to_string());
+            rv["run_index"] = json!(format!("grid-{}", i));
+            rv["class"] = json!(v.class);
+            rv["detail"] = json!(v.detail);
+            let path = write_replay("C14", &format!("seed{}-grid{}", seed, i), &rv);
+            let confirmed = std::process::Command::new(std::env::current_exe().unwrap())
+                .args(["replay", path.to_str().unwrap(), "--quiet"])
+                .stdout(std::process::Stdio::null())
+                .status()
+                .map(|s| s.code() == Some(1))
+                .unwrap_or(false);
+            if !confirmed {
+                harness_error(&format!("grid violation of class {} did not reproduce from its replay file {} in a fresh process", v.class, path.display()));
+            }
+            println!("C14 violation class={} grid world {} ({})\n{}", v.class, i, rv["grid"], v.detail);
+            println!("  data: {}\n  schedule: {}", rv["data"], rv["schedule"]);
+            println!("VIOLATION property=C14 replay={}", path.display());
+            new_violations += 1;
+            exit = 1;
+        }
+    }
     for k in known.iter().filter(|k| k.kind == "finding" && k.property == "C14") {
         if let Some(rp) = &k.replay {
             if let Ok(v) = read_json(&verif_dir().join(rp)) {
@@ -347,6 +399,7 @@ pub fn check(args: &Args) -> i32 {
             "unexecutable_reasons": unexec_reasons,
             "violating_runs_before_dedup": violations.len(),
             "run_phase_wall_s": run_phase_s,
+            "grid": {"worlds": grid_n, "executed": grid_executed, "violating": grid_violating, "what": "systematic sweep: every nesting of two operators of the expression grammar (22 binary, 6 unary, ?:, member, call, literals) in both groupings, in three binding positions, original / re-printed / re-printed with mangling in lock-step over seeded numeric data (6 update rounds)"},
         }),
     });
     println!(
